@@ -484,7 +484,11 @@ func (s *SecureChannel) readChunk() (*MessageChunk, error) {
 			return nil, ua.StatusBadDecodingError // todo(dh): check if this is the correct error
 		}
 
-		if s.openingInstance == nil {
+		// open() resets s.openingInstance when it returns (also when it gives up:
+		// cancelled context, timeout) while this goroutine handles the answer:
+		// work on the instance that was current when the chunk arrived
+		opening := s.openingInstance
+		if opening == nil {
 			return nil, errors.Errorf("sechan: invalid state. openingInstance is nil.")
 		}
 
@@ -508,16 +512,16 @@ func (s *SecureChannel) readChunk() (*MessageChunk, error) {
 			if !ok {
 				return nil, ua.StatusBadCertificateInvalid
 			}
-			algo, err := uapolicy.Asymmetric(s.cfg.SecurityPolicyURI, s.openingInstance.sc.cfg.LocalKey, remoteKey)
+			algo, err := uapolicy.Asymmetric(s.cfg.SecurityPolicyURI, opening.sc.cfg.LocalKey, remoteKey)
 			if err != nil {
 				return nil, err
 			}
 
-			s.openingInstance.algo = algo
-			verifPoint("srvopn.readAsym", s.openingInstance)
+			opening.algo = algo
+			verifPoint("srvopn.readAsym", opening)
 		}
 
-		decryptWith = s.openingInstance
+		decryptWith = opening
 	case "CLO":
 		return nil, io.EOF
 	case "MSG":
